@@ -136,6 +136,7 @@ def gvh(ctx, args, timeout=3600, check=True, stdin=None):
     env["VERIF_SEED"] = str(ctx.seed)
     env["VERIF_SCRATCH"] = ctx.sub("gvh-scratch")
     env["GVH_SELF"] = exe
+    env["VERIF_HARNESS"] = HARNESS
     try:
         p = subprocess.run([exe] + args, env=env, capture_output=True, text=True, timeout=timeout, input=stdin)
     except subprocess.TimeoutExpired:
